@@ -114,6 +114,9 @@ func OwnedBy(m Mismatch, a map[string]any, prop string) bool {
 
 		return false
 	}
+	if strings.HasPrefix(m.Kind, "reaper") && (prop == "C06" || prop == "C15" || prop == "C19") {
+		return true // an allocation ended by something else than its lifetime or Refresh 0 / a straggler that acts
+	}
 	if strings.HasPrefix(m.Kind, "txn") && (prop == "C12" || (prop == "C18" && m.Kind == "txn.hang")) {
 		return true
 	}
